@@ -19,18 +19,25 @@ struct GMGPolarVerif {
 static int mode_points(int npts)
 {
     Rng rng(seed_from_env());
+    // two ways of selecting a test case: a fresh solver object per tuple, and ONE long-lived object whose setParameters() is called
+    // again and again (parameter studies); the outer radius varies (the constructor's default selection uses 1.3)
+    GMGPolar shared;
+    int tuple_no = 0;
     for (int p = 0; p < 4; p++) for (int g = 0; g < 3; g++) for (int a = 0; a < 4; a++) for (int b = 0; b < 2; b++) {
-        double Rmax = 1.3, kappa = g == 2 ? rng.uniform(0.1, 0.5) : rng.uniform(0.0, 0.5), delta = g == 2 ? rng.uniform(1.0, 2.0) : rng.uniform(0.0, 0.3);
+        double Rmax = rng.pick(std::vector<double>{1.3, 1.3, 1.0, 2.0, rng.uniform(0.8, 2.5)}), kappa = g == 2 ? rng.uniform(0.1, 0.5) : rng.uniform(0.0, 0.5), delta = g == 2 ? rng.uniform(1.0, 2.0) : rng.uniform(0.0, 0.3);
         double aj = 0.7081 * Rmax;
         std::vector<std::string> args = {"gmgpolar", "--verbose", "0", "--problem", std::to_string(p), "--geometry", std::to_string(g), "--alpha_coeff", std::to_string(a), "--beta_coeff",
                                          std::to_string(b), "--Rmax", "1.3"};
         char buf[64];
+        snprintf(buf, sizeof buf, "%.17g", Rmax); args[12] = buf;
         snprintf(buf, sizeof buf, "%.17g", kappa); args.push_back("--kappa_eps"); args.push_back(buf);
         snprintf(buf, sizeof buf, "%.17g", delta); args.push_back("--delta_e"); args.push_back(buf);
         snprintf(buf, sizeof buf, "%.17g", aj); args.push_back("--alpha_jump"); args.push_back(buf);
         std::vector<char*> argv;
         for (auto& s : args) argv.push_back(const_cast<char*>(s.c_str()));
-        GMGPolar gm;
+        GMGPolar fresh_obj;
+        bool use_shared = (tuple_no++ % 2) == 1;
+        GMGPolar& gm = use_shared ? shared : fresh_obj;
         try { gm.setParameters((int)argv.size(), argv.data()); }
         catch (const std::exception& e) { printf("NOTUP %d %d %d %d\n", p, g, a, b); continue; }
         GMGPolarVerif v(gm);
